@@ -350,7 +350,13 @@ func fmtPtr(v reflect.Value) string {
 		return FmtVal(m.Call(nil)[0])
 	}
 	if tn == "LinkedListEntity" {
-		return "node:" + FmtVal(v.Elem().FieldByName("Value"))
+		// a list node handed out by GetFirst/GetLast is emptied when it is removed later: its content
+		// at formatting time is not part of what the call returned
+		if val := v.Elem().FieldByName("Value"); val.IsNil() {
+			return "node:removed"
+		} else {
+			return "node:" + FmtVal(val)
+		}
 	}
 	return "*" + tn
 }
@@ -571,4 +577,26 @@ func ExportedMethods(obj interface{}) []reflect.Method {
 	}
 	sort.Slice(ms, func(i, j int) bool { return ms[i].Name < ms[j].Name })
 	return ms
+}
+
+// QueueLen reads the number of queued elements of a RequestQueue / RequestDoubleQueue straight from
+// its private lists, without calling any method of the queue: harness predicates (the Enabled
+// function of a scheduler operation) run on the scheduler's goroutine and must not take locks.
+func QueueLen(q interface{}) int {
+	v := reflect.ValueOf(q)
+	for v.Kind() == reflect.Ptr {
+		v = v.Elem()
+	}
+	n := 0
+	for _, name := range []string{"queue", "queue1", "queue2"} {
+		f := v.FieldByName(name)
+		if !f.IsValid() {
+			continue
+		}
+		for f.Kind() == reflect.Ptr {
+			f = f.Elem()
+		}
+		n += int(f.FieldByName("size").Int())
+	}
+	return n
 }
